@@ -307,8 +307,11 @@ package shard
 //@   property C09, C15
 //@   callee (*shard.Shard).addObjectCounter, (*shard.Shard).addToContainerSize, (*shard.Shard).addToPayloadCounter, shard.logOp, id.NewAddress, (id.ID).*, (mode.Mode).*
 //@   pureeffect
+// (no-panic sweep: the removal runs inside the GC workers - a panic there takes the node down
+// between the metadata and the blob step)
 //@ func (*Shard).deleteObjs
 //@   property C09
+//@   sweep slice.bounds
 //@   valid !cacheCopyLeft(0)
 //@   loop 1 invariant [every_cached_copy_so_far_is_gone] !cacheCopyLeft(0)
 //@ func (*Shard).deleteObjs
